@@ -1,7 +1,7 @@
 CONSTANTS
   Driver = "iour"
-  Shapes <- ShapesCtl
-  MaxSteps = 7
+  Shapes <- ShapesCtl2
+  MaxSteps = 6
   MaxCancel = 2
   MaxFeed = 2
   Eager = FALSE
